@@ -138,6 +138,13 @@ func (t *Tokenizer) Start() *Tokenizer {
 	return t
 }
 
+// Stop consumes the remaining tokens, so that the goroutine started by Start
+// terminates even if the consumer stops reading before EOF is reached.
+func (t *Tokenizer) Stop() {
+	for range t.tok {
+	}
+}
+
 func (t *Tokenizer) Peek() Token {
 	return t.forward(1)
 }
